@@ -4,6 +4,12 @@
 //	race <seed> <milliseconds> <workers>
 //	meet <seed> <rounds> <bodysize>
 //	bwmeet <seed> <rounds> <bodysize>
+//	stallwrite <seed> <rounds>
+//
+// `stallwrite`: stream connection whose peer has stopped reading: a request's frame write is blocked in the transport while
+// its context expires.  If the call returns then (the unchanged library does not: known finding F26 of C09), the application
+// owns its request again: it releases it and sends the next one.  When the peer reads again, every frame on the wire must be
+// one of the requests as they were issued, each at most once - bytes of a released (recycled) message must never be sent.
 //
 // `bwmeet`: a block-wise upload (POST with an application-supplied body reader) whose context is cancelled at the moment
 // the peer's 2.31 Continue for the outstanding block is processed: the request call returns, the application releases
@@ -28,6 +34,7 @@ import (
 	"fmt"
 	"io"
 	"math/rand"
+	"runtime"
 	"strconv"
 	"strings"
 	"sync"
@@ -40,6 +47,8 @@ import (
 	"github.com/plgd-dev/go-coap/v3/message/pool"
 	"github.com/plgd-dev/go-coap/v3/net/blockwise"
 	"github.com/plgd-dev/go-coap/v3/net/responsewriter"
+	tcpclient "github.com/plgd-dev/go-coap/v3/tcp/client"
+	tcpcoder "github.com/plgd-dev/go-coap/v3/tcp/coder"
 	udpclient "github.com/plgd-dev/go-coap/v3/udp/client"
 	udpcoder "github.com/plgd-dev/go-coap/v3/udp/coder"
 	"verifharness/internal/lp"
@@ -497,6 +506,114 @@ func runBWMeet(seed int64, rounds int, bodySize int) string {
 	return fmt.Sprintf("ok rounds=%d gated=%d entered=%d conns=%d", met, gatedRounds.Load(), gatedEntered.Load(), conns)
 }
 
+func runStallWrite(seed int64, rounds int) string {
+	// one P: what the application's goroutine releases to the pool is what it acquires next (sync.Pool is per P)
+	defer runtime.GOMAXPROCS(runtime.GOMAXPROCS(1))
+	rng := rand.New(rand.NewSource(seed))
+	early := 0
+	for r := 0; r < rounds; r++ {
+		cc, peer, err := mem.NewTCPConn(mem.TCPOpts{Mutate: func(cfg *tcpclient.Config) {
+			cfg.LimitClientParallelRequests = 8
+			cfg.LimitClientEndpointParallelRequests = 8
+		}})
+		if err != nil {
+			return "bad conn-error"
+		}
+		time.Sleep(5 * time.Millisecond)
+		peer.TakeFrames() // the CSM
+		peer.Stall()
+		time.Sleep(2 * time.Millisecond)
+		type want struct {
+			tok  string
+			path string
+		}
+		var wants []want
+		type reqDef struct {
+			tok  message.Token
+			path string
+		}
+		var defs []reqDef
+		for i := 0; i < 3; i++ {
+			tok := message.Token{0xC1, byte(r), byte(i), byte(rng.Intn(256))}
+			path := fmt.Sprintf("/stall/%d/%d/%s", r, i, strings.Repeat("p", 3+i*7))
+			defs = append(defs, reqDef{tok, path})
+			wants = append(wants, want{fmt.Sprintf("%x", []byte(tok)), path})
+		}
+		firstBack := make(chan struct{})
+		allBack := make(chan struct{})
+		go func() { // the application: three requests one after the other, each given 10 ms
+			defer close(allBack)
+			for i, d := range defs {
+				ctx, cancel := context.WithTimeout(context.Background(), 10*time.Millisecond)
+				req := cc.AcquireMessage(ctx)
+				req.SetCode(codes.GET)
+				req.SetToken(d.tok)
+				_ = req.SetPath(d.path)
+				resp, err := cc.Do(req)
+				if err == nil {
+					cc.ReleaseMessage(resp)
+				}
+				cancel()
+				cc.ReleaseMessage(req) // the call has returned: the request is the application's again, and it gives it back
+				if i == 0 {
+					close(firstBack)
+				}
+			}
+		}()
+		select {
+		case <-firstBack:
+			// the call returned although its frame is still (partly) unwritten: let the application go on for a while
+			early++
+			select {
+			case <-allBack:
+			case <-time.After(60 * time.Millisecond):
+			}
+		case <-time.After(30 * time.Millisecond):
+		}
+		peer.Resume()
+		select {
+		case <-allBack:
+		case <-time.After(200 * time.Millisecond):
+		}
+		time.Sleep(10 * time.Millisecond)
+		seen := map[string]int{}
+		verdict := ""
+		for _, fr := range peer.TakeFrames() {
+			m := pool.NewMessage(context.Background())
+			if _, err := m.UnmarshalWithDecoder(tcpcoder.DefaultCoder, fr); err != nil {
+				verdict = fmt.Sprintf("bad round=%d an undecodable frame was written after the peer resumed reading", r)
+				break
+			}
+			p, _ := m.Path()
+			k := fmt.Sprintf("%x %s", []byte(m.Token()), p)
+			seen[k]++
+			ok := false
+			for _, w := range wants {
+				ok = ok || (w.tok+" "+w.path) == k
+			}
+			if !ok {
+				verdict = fmt.Sprintf("bad round=%d a frame that no request issued was written (token %x path %s)", r, []byte(m.Token()), p)
+				break
+			}
+			if seen[k] > 1 {
+				verdict = fmt.Sprintf("bad round=%d the frame of one request was written twice (token %x): the bytes of a recycled message were sent in place of another request's", r, []byte(m.Token()))
+				break
+			}
+		}
+		if verdict == "" && peer.TakeBytes() != nil && early > 0 {
+			// an incomplete tail: a frame whose length field and content do not belong together
+			verdict = fmt.Sprintf("bad round=%d bytes that do not make up a frame were left on the wire", r)
+		}
+		_ = cc.Close()
+		peer.Close()
+		<-allBack
+		if verdict != "" {
+			return verdict
+		}
+	}
+	return fmt.Sprintf("ok rounds=%d early=%d", rounds, early)
+}
+
 // spin waits without yielding to the scheduler for long: a sleep would be far too coarse
 func spin(d time.Duration) {
 	t := time.Now()
@@ -518,6 +635,12 @@ func TestC12Race(t *testing.T) {
 			rounds, _ := strconv.Atoi(f[2])
 			size, _ := strconv.Atoi(f[3])
 			fmt.Fprintln(w, runBWMeet(seed, rounds, size))
+			return
+		}
+		if len(f) == 3 && f[0] == "stallwrite" {
+			seed, _ := strconv.ParseInt(f[1], 10, 64)
+			rounds, _ := strconv.Atoi(f[2])
+			fmt.Fprintln(w, runStallWrite(seed, rounds))
 			return
 		}
 		if len(f) == 4 && f[0] == "meet" {
